@@ -240,3 +240,9 @@ func short(s string, n int) string {
 	}
 	return s
 }
+
+// Scratch returns a throw-away collector (used when one rule needs another
+// rule's anchor lookup without recording its obligations).
+func Scratch(c *Ctx) *R {
+	return &R{c: c, rule: &Rule{ID: "scratch"}, seen: map[string]int{}, Funcs: map[string]bool{}}
+}
